@@ -28,7 +28,7 @@ func newNativeReplayer(dir string, ovPaths map[string]string, workDir string) *n
 	if tag == "." {
 		tag = "root"
 	}
-	testSrc := "package " + pn + "\n\nimport \"testing\"\n\nfunc TestVerifReplay(t *testing.T) { VRunReplay() }\n"
+	testSrc := "package " + pn + "\n\nimport \"testing\"\n\nfunc TestVerifReplay(t *testing.T) { vRunReplay() }\n"
 	if dir == "." {
 		testSrc = "//go:build linux\n\n" + testSrc
 	}
